@@ -327,6 +327,48 @@ def k_multi(ctx):
                       detail="%s %r yielded=%r filters=%r" % (name, attr, got, filters))
 
 
+# ---- K3c: a history of searches on one FileSet object -------------------------------------------------------
+HISTORIES = {
+    "white-then-none": [{"name": "A"}, None],
+    "white-then-other-white": [{"name": "A"}, {"name": "B"}],
+    "black-then-white-then-none": [{"!name": "A"}, {"name": "A"}, None],
+    "none-then-white-then-none": [None, {"name": "B"}, None],
+}
+
+
+@harness("C01.find-history", cases=lambda tier: [(h, lay) for h in sorted(HISTORIES) for lay in ("name/y/doy", "y/m/d/name")] if tier == "thorough" else
+         [("white-then-other-white", "name/y/doy"), ("black-then-white-then-none", "name/y/doy"), ("white-then-none", "y/m/d/name")],
+         expect=lambda c: ["later-searches-do-not-depend-on-earlier-ones"])
+def k_find_history(ctx):
+    """several find() calls with different filters on the *same* FileSet object (a user placeholder in a
+    directory level): every call is exact for its own filters, whatever was searched before."""
+    hist, layout = ctx.case
+    tmpl, cov = LAYOUTS[layout]
+    mfs = ModelFS(ctx, max_faults=0)
+    fset = make_fileset(ctx, tmpl, mfs, time_coverage=cov)
+    files = _populate(fset, mfs, layout)
+    names = {name: "AB"[k % 2] for k, (name, _, _) in enumerate(files)}
+    with sym_env(ctx, WIN_TREE):
+        start = ST.sym_datetime(ctx, "start", WIN_TREE, lo=datetime(2019, 12, 1), hi=datetime(2020, 4, 1))
+        end = ST.sym_datetime(ctx, "end", WIN_TREE, lo=datetime(2019, 12, 1), hi=datetime(2020, 4, 1))
+        ctx.assume(start < end)
+        for step, filters in enumerate(HISTORIES[hist]):
+            try:
+                found = [fi.path for fi in fset.find(start, end, filters=filters)]
+            except F.NoFilesError:
+                found = []
+            for (name, t0, t1) in files:
+                ok = _multi_passes(filters or {}, {"name": names[name]})
+                got = name in found
+                if ctx.sym:
+                    exp = And(end > t0, start <= t1) if ok else False
+                    ctx.check("later-searches-do-not-depend-on-earlier-ones", (exp if got else Not(exp)) if ok else (not got),
+                              detail="search %d with filters %r: %s yielded=%r" % (step + 1, filters, name, got))
+                else:
+                    ctx.check("later-searches-do-not-depend-on-earlier-ones", ((t0 < end and t1 >= start) and ok) == got,
+                              detail="search %d with filters %r: %s yielded=%r" % (step + 1, filters, name, got))
+
+
 # ---- K4: bundling by time frequency (pandas Grouper) on a concrete tree, symbolic period -----------------
 DENSE = ["2019-12-31 21:00:00", "2019-12-31 23:30:00", "2020-01-01 00:00:00", "2020-01-01 00:30:00", "2020-01-01 13:00:00",
          "2020-02-29 11:00:00", "2020-02-29 12:00:00", "2020-03-01 00:00:00"]
@@ -385,9 +427,9 @@ def k_freq(ctx):
 
 
 PLAN = {
-    "quick": {"harnesses": ["C01.per-file", "C01.bundles", "C01.tree", "C01.freq-bundles", "C01.multi-filter"],
+    "quick": {"harnesses": ["C01.per-file", "C01.bundles", "C01.tree", "C01.freq-bundles", "C01.multi-filter", "C01.find-history"],
               "opts": {"query_timeout_ms": 10000, "chunk_paths": 40}},
-    "thorough": {"harnesses": ["C01.per-file", "C01.bundles", "C01.tree", "C01.freq-bundles", "C01.multi-filter"],
+    "thorough": {"harnesses": ["C01.per-file", "C01.bundles", "C01.tree", "C01.freq-bundles", "C01.multi-filter", "C01.find-history"],
                  "opts": {"query_timeout_ms": 20000, "chunk_paths": 40}},
 }
 BOUNDS = {"quick": {"per-file decision": "flat template, n <= 2 files with arbitrary symbolic coverages (microsecond resolution), <= 1 symbolic "
@@ -397,6 +439,7 @@ BOUNDS = {"quick": {"per-file decision": "flat template, n <= 2 files with arbit
                                          "a literal directory between year and month, end fields, flat) x 8 concrete files placed at year / month / leap-day boundaries, file length <= one "
                                          "period of the finest directory level; every period [start, end) with microsecond bounds in 2019-12-01 .. 2020-04-01",
                     "several filter keys": "6 combinations of white / black (value and list) filters on two user placeholders, 5 concrete files, every symbolic period",
+                    "search history": "3 sequences of 2-3 searches with different filters on one FileSet object (thorough: 4 sequences x 2 layouts with a user placeholder directory), every symbolic period",
                     "bundling": "n <= 3 symbolic files, integer bundle sizes 1, 2, 4, sorted and unsorted; by time frequency (1D, 12h, 6h) on 8 concrete "
                                 "files (several per bundle, year / leap-day boundaries) in 2 layouts for every symbolic period"},
           "thorough": {"per-file decision": "adds list filters; n = 1 with 2 excluded periods under every filter; n = 2 with 2 excluded periods (no / white-list filter); n = 3 files without excluded periods (no / white-list / black-list filter) and with 1 excluded period (no filter)", "directory pruning": "all %d layouts (adds year-month/day, literal/year/doy, year/month/literal, year/literal/literal/month/day, name-literal/year, year/month/day/hour, ...)" % len(LAYOUTS),
